@@ -459,6 +459,21 @@ def _twin_job(job):
         shutil.rmtree(d)
 
 
+def _benign_job(job):
+    pid, name, patch = job
+    d, r = _scratch()
+    try:
+        p = subprocess.run(['git', 'apply', '--unsafe-paths', '--directory=' + r, patch], cwd='/', capture_output=True, text=True)
+        if p.returncode:
+            return 'benign/' + name, 'skipped', 'patch does not apply to the current tree'
+        rc, keys = _run(pid, r)
+        if rc == 0:
+            return 'benign/' + name, 'silent', 0
+        return 'benign/' + name, 'alarm' if rc == 1 else 'analysis-error', keys[:3]
+    finally:
+        shutil.rmtree(d)
+
+
 def run_for(ctx, pid):
     matrix = {}
     mp = os.path.join(HERE, 'seeded', 'MATRIX.json')
@@ -481,9 +496,11 @@ def run_for(ctx, pid):
         if m_ and m_.group(1) == pid:
             jobs.append(('commit', 'revert-commit-' + m_.group(2), pid, m_.group(2)))
     tjobs = [(pid, m, q) for m, q in TWIN_FUNCS.get(pid, [])]
+    # behaviour-preserving refactors made for this property by fresh agents (benign/<pid>-b<n>): must stay silent
+    bjobs = [(pid, os.path.basename(b), os.path.join(b, 'patch.diff')) for b in sorted(glob.glob(os.path.join(HERE, 'benign', pid + '-b*')))]
     with ThreadPoolExecutor(12) as ex:
         mres = list(ex.map(_mutant_job, jobs))
-        tres = list(ex.map(_twin_job, tjobs))
+        tres = list(ex.map(_twin_job, tjobs)) + list(ex.map(_benign_job, bjobs))
     st = {
         'mutants_applied': sum(1 for _, s, _ in mres if s != 'skipped'),
         'fired': {n: d for n, s, d in mres if s == 'fired'},
